@@ -91,10 +91,6 @@ Example C11_reuse_reads_zero :
   (cell t4 0 0, cell t4 0 1, cell t5 0 0, cell t5 0 1, cell t6 0 1, Z.of_nat (t_cap t6)) = (77, 88, 88, 0, 0, 2)%Z.
 Proof. vm_compute. reflexivity. Qed.
 
-Print Assumptions C11_fresh_row_reads_zero.
-Print Assumptions C11_swap_remove_keeps_clean.
-Print Assumptions C11_capacity_change_keeps_clean.
-Print Assumptions C11_reset_zeroes_everything.
-Print Assumptions C11_bulk_append_keeps_clean.
-Print Assumptions C11_zeroing_strategies_agree.
-Print Assumptions C11_is_trivial_exact.
+(** One traversal of the dependency graph for all theorems of this file. *)
+Definition C11_all := (C11_fresh_row_reads_zero, C11_swap_remove_keeps_clean, C11_capacity_change_keeps_clean, C11_reset_zeroes_everything, C11_bulk_append_keeps_clean, C11_zeroing_strategies_agree, C11_is_trivial_exact).
+Print Assumptions C11_all.
